@@ -20,10 +20,20 @@ for h in a.hs:
     log = '%s/%s.%s.log' % (base, h, a.p)
     td = '%s/t_%s_%s' % (base, h, a.p)
     hq = ('--exact --harness ' + driver.fq(REG[h])) if h in REG else ('--harness ' + h)
-    cmd = 'ulimit -v %d; exec timeout -s KILL %d setsid -w cargo kani -Z stubbing --target-dir %s %s %s' % (a.m * 1024 * 1024, a.t, td, hq, a.x)
-    procs.append((h, log, td, time.time(), subprocess.Popen(['bash', '-c', cmd], cwd=ov, stdout=open(log, 'w'), stderr=subprocess.STDOUT, env=driver.KANI_ENV)))
+    cmd = 'ulimit -v %d; exec cargo kani -Z stubbing --target-dir %s %s %s' % (a.m * 1024 * 1024, td, hq, a.x)
+    procs.append((h, log, td, time.time(), subprocess.Popen(['bash', '-c', cmd], cwd=ov, stdout=open(log, 'w'), stderr=subprocess.STDOUT, env=driver.KANI_ENV, start_new_session=True)))
+import signal
 for h, log, td, t0, p in procs:
-    rc = p.wait()
+    try:
+        rc = p.wait(timeout=max(1, a.t - (time.time() - t0)))
+    except subprocess.TimeoutExpired:
+        try:
+            os.killpg(p.pid, signal.SIGKILL)
+        except ProcessLookupError:
+            pass
+        p.wait()
+        rc = 'TO'
+
     t = open(log, errors='replace').read()
     sym = re.findall(r'Runtime Symex: ([\d.]+)s', t); vt = re.findall(r'Verification Time: ([\d.]+)s', t)
     res = re.findall(r'VERIFICATION:- (\w+)', t); summ = re.findall(r'\*\* (\d+ of \d+ failed[^\n]*)', t)
